@@ -118,3 +118,51 @@ Proof.
   intros Hs (F1 & B1) (F2 & B2) (F3 & B3) (F4 & B4).
   apply line_edge_new_no_panic; unfold B20; apply fd6_small; assumption.
 Qed.
+
+(* ---- the whole edge builder of a line-only path -------------------------------------------------------------------------- *)
+Definition pt_ok (shift : Z) (p : pt) : Prop := px_ok shift (px p) /\ px_ok shift (py p).
+
+Lemma zero_pt_ok shift : 0 <= shift <= 8 -> pt_ok shift zero_pt.
+Proof.
+  intros Hs. assert (Z0 : px_ok shift F32.zero).
+  { split; [reflexivity|]. change (R32 F32.zero) with 0%R. rewrite Rabs_R0. apply bpow_ge_0. }
+  split; exact Z0.
+Qed.
+
+Lemma path_lines_ok shift : forall vs ps last mv nc segs,
+  path_lines_aux vs ps last mv nc = Some segs -> Forall (pt_ok shift) ps -> pt_ok shift last -> pt_ok shift mv ->
+  Forall (fun s => pt_ok shift (fst s) /\ pt_ok shift (snd s)) segs.
+Proof.
+  induction vs as [|v vs IH]; intros ps last mv nc segs H Hps Hl Hm; cbn [path_lines_aux] in H.
+  - injection H as H. subst segs. destruct nc; [constructor; [split; assumption | constructor] | constructor].
+  - destruct v; try discriminate.
+    + destruct ps as [|p ps']; [discriminate|]. inversion Hps as [|? ? Hp Hps']; subst.
+      destruct (path_lines_aux vs ps' p p false) as [r|] eqn:R; [|discriminate]. cbn [option_map] in H. injection H as H. subst segs.
+      apply Forall_app. split; [destruct nc; [constructor; [split; assumption | constructor] | constructor]|].
+      exact (IH _ _ _ _ _ R Hps' Hp Hp).
+    + destruct ps as [|p ps']; [discriminate|]. inversion Hps as [|? ? Hp Hps']; subst.
+      destruct (path_lines_aux vs ps' p mv true) as [r|] eqn:R; [|discriminate]. cbn [option_map] in H. injection H as H. subst segs.
+      constructor; [split; assumption|]. exact (IH _ _ _ _ _ R Hps' Hp Hm).
+    + destruct (path_lines_aux vs ps mv mv false) as [r|] eqn:R; [|discriminate]. cbn [option_map] in H. injection H as H. subst segs.
+      apply Forall_app. split; [destruct nc; [constructor; [split; assumption | constructor] | constructor]|].
+      exact (IH _ _ _ _ _ R Hps Hm Hm).
+Qed.
+
+Lemma build_edges_aux_no_panic shift : 0 <= shift <= 8 -> forall segs acc,
+  Forall (fun s => pt_ok shift (fst s) /\ pt_ok shift (snd s)) segs -> build_edges_aux segs shift acc <> None.
+Proof.
+  intros Hs. induction segs as [|[p0 p1] r IH]; intros acc H; cbn [build_edges_aux]; [discriminate|].
+  inversion H as [|? ? ((A & B) & (C & D)) Hr]; subst. cbn [fst snd] in *.
+  pose proof (line_edge_new_no_panic_px p0 p1 shift Hs A B C D) as NP.
+  destruct (line_edge_new p0 p1 shift) as [[e|]|]; [apply IH; exact Hr | apply IH; exact Hr | contradiction].
+Qed.
+
+(* the edge builder cannot panic on a line-only path whose points are finite and within +-2^(14 - shift) px *)
+Theorem build_edges_no_panic p shift segs :
+  0 <= shift <= 8 -> path_lines p = Some segs -> Forall (pt_ok shift) (ppoints p) -> build_edges p shift <> None.
+Proof.
+  intros Hs PL Hp. unfold build_edges. rewrite PL.
+  pose proof (path_lines_ok shift _ _ _ _ _ _ PL Hp (zero_pt_ok shift Hs) (zero_pt_ok shift Hs)) as Ok.
+  pose proof (build_edges_aux_no_panic shift Hs segs [] Ok) as NP.
+  destruct (build_edges_aux segs shift []); [discriminate | contradiction].
+Qed.
